@@ -466,7 +466,7 @@ func TestC02Child(t *testing.T) {
 
 type c02StructCase struct {
 	Form string `json:"form"` // struct | pointer | in-array | in-map
-	Site string `json:"site,omitempty"` // "" (printed by an object) | append | join | conversion-error | include-error | contains
+	Site string `json:"site,omitempty"` // "" (printed by an object) | append | join | conversion-error | include-error | divisor-error | contains
 }
 
 var c02StructPrint = hx.Define("c02.struct-print", func(c *c02StructCase, s *hx.Sub) *hx.Violation {
@@ -494,6 +494,8 @@ var c02StructPrint = hx.Define("c02.struct-print", func(c *c02StructCase, s *hx.
 		src = "{{ v | plus: 1 }}"
 	case "include-error":
 		src = "{% include v %}"
+	case "divisor-error":
+		src = "{{ 1 | divided_by: v }}"
 	case "contains":
 		src = "{% if 'x{1 7 map[a:1]}' contains v %}T{% else %}F{% endif %}"
 	}
@@ -629,9 +631,9 @@ func TestC02(t *testing.T) {
 		}
 	})
 
-	sp := c02StructPrint.On(col, "24 cases: a struct with a pointer-typed field, a pointer to it, an array holding it, and a map holding a pointer, x the places where a value is turned into text (printed by an object, appended, joined, named in a conversion error, named in include's error, searched for with contains), each rendered against two equal, separately allocated bindings; oracle: same output and same error text. Distinct by construction", true)
+	sp := c02StructPrint.On(col, "28 cases: a struct with a pointer-typed field, a pointer to it, an array holding it, and a map holding a pointer, x the places where a value is turned into text (printed by an object, appended, joined, named in a conversion error, named in include's and in divided_by's error, searched for with contains), each rendered against two equal, separately allocated bindings; oracle: same output and same error text. Distinct by construction", true)
 	for i, f := range []string{"struct", "pointer", "in-array", "in-map"} {
-		for j, site := range []string{"", "append", "join", "conversion-error", "include-error", "contains"} {
+		for j, site := range []string{"", "append", "join", "conversion-error", "include-error", "divisor-error", "contains"} {
 			if env.Mine(i*8 + j) {
 				sp.Run(&c02StructCase{Form: f, Site: site})
 			}
